@@ -974,3 +974,34 @@ Proof.
   intros H1 H2 E. apply shape_equal; [eapply shape_float; eassumption| |exact E].
   apply (leaf_constructors_wf pf w a1 [] 0).
 Qed.
+
+(** * The constructor fold's error is sticky *)
+
+(** first error wins: once an argument has been refused, nothing that follows can clear it *)
+Lemma concat_res_sticky {A B} (f : A -> res (list B)) pre a post e :
+  f a = inl e -> exists e', concat_res f (pre ++ a :: post) = inl e'.
+Proof. intros H. apply (concat_res_refuse f (pre ++ a :: post) a e); [apply in_elt|exact H]. Qed.
+
+(** an invalid argument at ANY position of ANY argument list, whatever precedes and follows it *)
+Theorem refusals_any_position pf w pre a post :
+  (refused_int a -> error (new_int w (pre ++ a :: post)) <> None) /\
+  (refused_uint a -> error (new_uint w (pre ++ a :: post)) <> None) /\
+  (refused_float pf a -> error (new_float pf w (pre ++ a :: post)) <> None) /\
+  (refused_bin a -> error (new_binary (pre ++ a :: post)) <> None) /\
+  (refused_bool a -> error (new_boolean (pre ++ a :: post)) <> None).
+Proof. apply refusals. apply in_elt. Qed.
+
+(** ... and such an item is neither Equal to the item of the remaining arguments nor accepted by the
+    message gate *)
+Corollary forgotten_argument_impossible w pre a post stream function wb session sysbytes :
+  refused_int a ->
+  let it := new_int w (pre ++ a :: post) in
+  equal it (new_int w (pre ++ post)) = false /\ equal (new_int w (pre ++ post)) it = false /\
+  exists e, new_data_message stream function wb session sysbytes (Some it) = inl e.
+Proof.
+  intros Hr. cbv zeta.
+  destruct (refusals_any_position (fun _ => None) w pre a post) as (Hi & _).
+  specialize (Hi Hr).
+  destruct (never_equal _ (new_int w (pre ++ post)) Hi) as (E1 & E2).
+  repeat split; try assumption. apply refused. exact Hi.
+Qed.
